@@ -239,6 +239,13 @@ func (p *Program) findFunc(key string) *ssa.Function {
 	if f, ok := p.funcs[key]; ok {
 		return f
 	}
+	// a second, independent unit for the same function: `func T.M#variant` (e.g. a byte-level allocation-budget contract
+	// next to the token-level functional contract). Callers never see it: they look the callee up by its plain key.
+	if k := strings.LastIndex(key, "#"); k >= 0 {
+		f := p.findFunc(key[:k])
+		p.funcs[key] = f
+		return f
+	}
 	// anonymous function (closure) of a repository function: <parent key>$N  (go/ssa naming: Parent$N)
 	if k := strings.LastIndex(key, "$"); k >= 0 {
 		var found *ssa.Function
